@@ -20,6 +20,7 @@ def _linit(ctx, rep):
 
 
 def c01(ctx, rep):
+    rules_effects.api_abi(ctx, rep)
     rules_cmp.nfkd_before_split(ctx, rep)
     rules_bounds.helper_contracts(ctx, rep)
     rules_bits.packing(ctx, rep, want=('layout', 'inverse'))
@@ -56,6 +57,7 @@ def c02(ctx, rep):
 
 
 def c03(ctx, rep):
+    rules_effects.api_abi(ctx, rep)
     rules_effects.state_reads(ctx, rep)
     rules_bounds.helper_contracts(ctx, rep)
     rules_bits.packing(ctx, rep, want=('layout',))
@@ -69,6 +71,7 @@ def c03(ctx, rep):
 
 
 def c04(ctx, rep):
+    rules_effects.api_abi(ctx, rep)
     rules_api.keygen(ctx, rep)
     _linit(ctx, rep)
     return ('bitflow exit summary of polyseed_keygen: every argument of the single KDF call as a symbolic term over the seed fields and coin; '
@@ -76,6 +79,7 @@ def c04(ctx, rep):
 
 
 def c05(ctx, rep):
+    rules_effects.api_abi(ctx, rep)
     rules_bits.mul2_and_horner(ctx, rep)
     rules_bounds.helper_contracts(ctx, rep)
     rules_api.encode_api(ctx, rep)
@@ -134,6 +138,7 @@ def c12(ctx, rep):
 
 
 def c13(ctx, rep):
+    rules_effects.api_abi(ctx, rep)
     rules_effects.state_reads(ctx, rep, cfgs=ctx.configs('path'))
     rules_effects.api_deps(ctx, rep, cfgs=ctx.configs('path'))
     rules_bounds.helper_contracts(ctx, rep)
@@ -252,6 +257,9 @@ def c11(ctx, rep):
 
 
 def c14(ctx, rep):
+    rules_effects.api_abi(ctx, rep)
+    rules_cmp.nfkd_before_split(ctx, rep)      # (includes TOK-1: no out-of-bounds access of the tokeniser on any buffer)
+    rules_cmp.dispatch(ctx, rep)               # (includes CMP-8: no comparator reads past a terminator)
     rules_bounds.helper_contracts(ctx, rep)
     rules_bounds.normaliser_buffers(ctx, rep)
     rules_cmp.cursor_safety(ctx, rep)
